@@ -135,7 +135,22 @@ def _check(case, cfg, files_raw, paths, d, res, ctx) -> None:  # noqa: ANN001
         how = paths if "sample_dir" in case else {"dir": None, "dict_abs": dict(paths), "dict_rel": {r: _os.path.basename(q) for r, q in paths.items()},
                                                   "list": sorted(paths.values(), reverse=True)}[ctor]
         res.counters[f"ctor_{ctor}"] += 1
-        ok0, t = drv.guard(res, f"Trace({ctor})", drv.new_trace, d, how, parser=cfg.get("parser"))
+        if ctor == "dict_rel" and "sample_dir" not in case and len(paths) % 2 == 1:
+            # the caller keeps ONE rank -> file-name mapping and uses it for two runs that live in two directories (same file
+            # names): first a decoy directory, then the real one.  Each Trace reads the files of ITS directory, and the caller's
+            # mapping is still what the caller wrote
+            decoy = _os.path.join(d, "other_run")
+            _os.makedirs(decoy, exist_ok=True)
+            core.write_trace_files(decoy, {_os.path.basename(q): {"distributedInfo": {"rank": r}, "traceEvents": [
+                {"ph": "X", "cat": "cpu_op", "name": "decoy_op", "pid": 1, "tid": 1, "ts": 5, "dur": 1, "args": {}}]} for r, q in paths.items()})
+            before = dict(how)
+            okd, _ = drv.guard(res, "Trace(dict_rel, other directory)", drv.new_trace_same_mapping, decoy, how, parser=cfg.get("parser"))
+            ok0, t = drv.guard(res, "Trace(dict_rel, same mapping object)", drv.new_trace_same_mapping, d, how, parser=cfg.get("parser"))
+            res.counters["mapping_object_used_for_two_directories"] += 1
+            if how != before:
+                res.bad("caller-mapping-unchanged", f"the rank -> file mapping handed to Trace() was rewritten in place: {core.short(before, 150)} became {core.short(how, 200)}")
+        else:
+            ok0, t = drv.guard(res, f"Trace({ctor})", drv.new_trace, d, how, parser=cfg.get("parser"))
         if not ok0:
             return
         if cfg["mode"] == "parse":
